@@ -2,7 +2,7 @@
 //!
 //! One-step harnesses from an arbitrary sequencer state with full 64-bit symbolic ids, plus
 //! k-step harnesses (k = 4) over arbitrary message sequences from `new(snapshot_id)`.
-use crate::proof;
+use crate::{gens::*, proof};
 use barter_data::{
     error::DataError,
     exchange::binance::{
@@ -119,14 +119,14 @@ proof! {
     #[kani::unwind(26)]
     fn c06_q_spot_step() {
         let mut seq = BinanceSpotOrderBookL2Sequencer {
-            updates_processed: kani::any(),
-            last_update_id: kani::any(),
-            prev_last_update_id: kani::any(),
+            updates_processed: any_u64(),
+            last_update_id: any_u64(),
+            prev_last_update_id: any_u64(),
         };
         // `+ 1` at u64::MAX is outside the claim (panic in dev profile / wrap in release; noted in evidence)
-        kani::assume(seq.last_update_id < u64::MAX && seq.updates_processed < u64::MAX);
-        let first: u64 = kani::any();
-        let last: u64 = kani::any();
+        assume(seq.last_update_id < u64::MAX && seq.updates_processed < u64::MAX);
+        let first: u64 = any_u64();
+        let last: u64 = any_u64();
         let first_update = seq.updates_processed == 0;
         let v = spot_step(&mut seq, first, last);
         kani::cover!(v == Verdict::Admitted && first_update, "first update admitted");
@@ -141,13 +141,13 @@ proof! {
     #[kani::unwind(26)]
     fn c06_q_futures_step() {
         let mut seq = BinanceFuturesUsdOrderBookL2Sequencer {
-            updates_processed: kani::any(),
-            last_update_id: kani::any(),
+            updates_processed: any_u64(),
+            last_update_id: any_u64(),
         };
-        kani::assume(seq.updates_processed < u64::MAX);
-        let first: u64 = kani::any();
-        let last: u64 = kani::any();
-        let prev: u64 = kani::any();
+        assume(seq.updates_processed < u64::MAX);
+        let first: u64 = any_u64();
+        let last: u64 = any_u64();
+        let prev: u64 = any_u64();
         let first_update = seq.updates_processed == 0;
         let v = fut_step(&mut seq, first, last, prev);
         kani::cover!(v == Verdict::Admitted && first_update, "first update admitted");
@@ -166,8 +166,8 @@ const K: usize = 4;
 proof! {
     #[kani::unwind(26)]
     fn c06_q_spot_chain_safety_k4() {
-        let s: u64 = kani::any();
-        kani::assume(s < u64::MAX - 1);
+        let s: u64 = any_u64();
+        assume(s < u64::MAX - 1);
         let mut seq = BinanceSpotOrderBookL2Sequencer::new(s);
         let mut last_admitted: u64 = s;
         let mut any_admitted = false;
@@ -175,9 +175,9 @@ proof! {
         let mut errors = 0usize;
         let mut i = 0;
         while i < K {
-            let first: u64 = kani::any();
-            let last: u64 = kani::any();
-            kani::assume(last < u64::MAX);
+            let first: u64 = any_u64();
+            let last: u64 = any_u64();
+            assume(last < u64::MAX);
             match spot_step(&mut seq, first, last) {
                 Verdict::Admitted => {
                     if any_admitted {
@@ -205,22 +205,21 @@ proof! {
 proof! {
     #[kani::unwind(26)]
     fn c06_q_spot_gap_free_never_errors_k4() {
-        let s: u64 = kani::any();
-        kani::assume(s < u64::MAX - 1);
+        let s: u64 = any_u64();
+        assume(s < u64::MAX - 1);
         let mut seq = BinanceSpotOrderBookL2Sequencer::new(s);
-        let n_old: usize = kani::any();
-        kani::assume(n_old <= K);
+        let n_old = any_usize_lt(K + 1);
         // the exchange's gap-free stream: U_{i+1} = u_i + 1, U_i <= u_i ; the first one delivered may start
         // anywhere at or before s+1 (messages wholly older than the snapshot are the "strictly older" prefix)
-        let mut next_first: u64 = kani::any();
-        kani::assume(next_first <= s + 1);
+        let mut next_first: u64 = any_u64();
+        assume(next_first <= s + 1);
         let mut i = 0;
         while i < K {
             let first = next_first;
-            let last: u64 = kani::any();
-            kani::assume(last >= first && last < u64::MAX - 1);
+            let last: u64 = any_u64();
+            assume(last >= first && last < u64::MAX - 1);
             if i < n_old {
-                kani::assume(last <= s);
+                assume(last <= s);
             }
             let v = spot_step(&mut seq, first, last);
             assert!(v != Verdict::Error, "C06 spot: gap-free in-order delivery errored");
@@ -237,7 +236,7 @@ proof! {
 proof! {
     #[kani::unwind(26)]
     fn c06_q_futures_chain_safety_k4() {
-        let s: u64 = kani::any();
+        let s: u64 = any_u64();
         let mut seq = BinanceFuturesUsdOrderBookL2Sequencer::new(s);
         let mut last_admitted: u64 = s;
         let mut any_admitted = false;
@@ -245,9 +244,9 @@ proof! {
         let mut errors = 0usize;
         let mut i = 0;
         while i < K {
-            let first: u64 = kani::any();
-            let last: u64 = kani::any();
-            let prev: u64 = kani::any();
+            let first: u64 = any_u64();
+            let last: u64 = any_u64();
+            let prev: u64 = any_u64();
             match fut_step(&mut seq, first, last, prev) {
                 Verdict::Admitted => {
                     if any_admitted {
@@ -273,22 +272,21 @@ proof! {
 proof! {
     #[kani::unwind(26)]
     fn c06_q_futures_gap_free_never_errors_k4() {
-        let s: u64 = kani::any();
+        let s: u64 = any_u64();
         let mut seq = BinanceFuturesUsdOrderBookL2Sequencer::new(s);
-        let n_old: usize = kani::any();
-        kani::assume(n_old <= K);
+        let n_old = any_usize_lt(K + 1);
         // exchange stream: pu_{i+1} = u_i, U_i <= u_i, U_{i+1} > u_i
-        let mut prev: u64 = kani::any();
+        let mut prev: u64 = any_u64();
         let mut i = 0;
         while i < K {
-            let first: u64 = kani::any();
-            let last: u64 = kani::any();
-            kani::assume(prev < first && first <= last);
+            let first: u64 = any_u64();
+            let last: u64 = any_u64();
+            assume(prev < first && first <= last);
             if i < n_old {
-                kani::assume(last < s);
+                assume(last < s);
             } else if i == n_old {
                 // the first message not strictly older than the snapshot covers the snapshot id
-                kani::assume(first <= s && last >= s);
+                assume(first <= s && last >= s);
             }
             let v = fut_step(&mut seq, first, last, prev);
             assert!(v != Verdict::Error, "C06 futures: gap-free in-order delivery errored");
@@ -306,9 +304,9 @@ proof! {
 proof! {
     #[kani::unwind(26)]
     fn c06_twin_must_fail() {
-        let mut seq = BinanceSpotOrderBookL2Sequencer::new(kani::any());
-        kani::assume(seq.last_update_id < u64::MAX);
-        let _ = spot_step(&mut seq, kani::any(), kani::any());
+        let mut seq = BinanceSpotOrderBookL2Sequencer::new(any_u64());
+        assume(seq.last_update_id < u64::MAX);
+        let _ = spot_step(&mut seq, any_u64(), any_u64());
         assert!(false, "twin");
     }
 }
